@@ -3,7 +3,7 @@
    Tables, dispatch bounds and low-end constants come from gen/Tables.v = the current source text of /repo. *)
 From Coq Require Import ZArith.
 Require Import C12.gen.Tables.
-From C12 Require Import PrimeB Model ProofsSweep ProofsTable ProofsTab12 ProofsPrimes16 ProofsPPTable ProofsNext ProofsFactor ProofsDivisors ProofsDivisorsNoDup ProofsPower ProofsComplete ProofsSetForms ModelScript ProofsScript ProofsDecide ModelErat ProofsErat ProofsTerminate.
+From C12 Require Import PrimeB Model ProofsSweep ProofsTable ProofsTab12 ProofsPrimes16 ProofsPPTable ProofsNext ProofsFactor ProofsDivisors ProofsDivisorsNoDup ProofsPower ProofsComplete ProofsSetForms ModelScript ProofsScript ProofsDecide ModelErat ProofsErat ProofsTerminate ProofsEratFull ProofsPowmod ModelFermat ProofsFermat.
 Local Open Scope Z_scope.
 
 Theorem C12_isprime_exact_below_65536 : Isprime_table_stmt.          Proof. exact isprime_table. Qed.
@@ -76,5 +76,11 @@ Theorem C12_isprimepower_decides : Isprimepower_decides_stmt.                Pro
 Print Assumptions C12_isprimepower_decides.
 Theorem C12_isprimepower_terminates : Isprimepower_terminates_stmt.         Proof. exact isprimepower_terminates. Qed.
 Print Assumptions C12_isprimepower_terminates.
-Theorem C12_erathostene_distinct_primes_below_1025_partial : Erat_partial_stmt. Proof. exact erat_partial. Qed.
-Print Assumptions C12_erathostene_distinct_primes_below_1025_partial.
+Theorem C12_erathostene_returns_below_1025_partial : Erat_partial_stmt. Proof. exact erat_partial. Qed.
+Print Assumptions C12_erathostene_returns_below_1025_partial.
+Theorem C12_erathostene_distinct_primes : Erat_stmt.                          Proof. exact erat_correct. Qed.
+Print Assumptions C12_erathostene_distinct_primes.
+Theorem C12_powmod_is_power_mod : Powmod_stmt.                               Proof. exact powmod_correct. Qed.
+Print Assumptions C12_powmod_is_power_mod.
+Theorem C12_pepin_agrees_with_primality_partial : Pepin_partial_stmt.        Proof. exact pepin_partial. Qed.
+Print Assumptions C12_pepin_agrees_with_primality_partial.
